@@ -387,8 +387,8 @@ def _unary(ctx, model, E):
                              ("__pos__", ("S",), "+x = x")):
         mem = E.members.get(name)
         ok = mem is not None and all(
-            _result(ps.retval) == want for ps in summarize(mem.node,
-                                                           node_param=False))
+            _result(ps.retval) == want
+            for ps in summarize(mem.node, node_param=False))
         ctx.ob(f"E/Expression.{name}", ok, E.loc(), what if ok else
                f"Expression.{name} is not {what}")
     mem = E.members.get("__invert__")
@@ -478,6 +478,34 @@ def _ordering(ctx, model, E):
     ctx.floor("node classes scanned for ordering overrides", len(nt.all()), 43)
 
 
+def _spliced_nary(rv, want):
+    """Cls((*lhs, *rhs)) where lhs is `self.children if isinstance(self, Cls)
+    else (self,)` and rhs likewise for other: operands in order, an operand of
+    the same associative class spliced in place (as sums and products are)"""
+    _, cls, order = want
+    if not (isinstance(rv, tuple) and rv[0] == "call" and rv[1] == cls
+            and len(rv[2]) == 1 and rv[2][0][0] == "lit"
+            and rv[2][0][1] == "tuple"):
+        return False
+    items = rv[2][0][2]
+    if len(items) != len(order):
+        return False
+    for it, who in zip(items, order):
+        x = {"S": S, "O": O}[who]
+        plain = it == x
+        spl = it[0] == "star" and it[1][0] == "ifexp" and len(it[1]) == 4
+        if spl:
+            cond = getattr(it[1][1], "val", None)
+            spl = cond == ("call", "isinstance", (x, ("global", cls)), ()) and \
+                it[1][2] == ("attr", x, "children") if x != S else \
+                cond == ("call", "isinstance", (x, ("global", cls)), ()) and \
+                it[1][2] in (("attr", x, "children"), ("self", "children"))
+            spl = spl and it[1][3] == ("lit", "tuple", (x,))
+        if not (plain or spl):
+            return False
+    return True
+
+
 def _constructors(ctx, model, E):
     table = {
         "not_": ("node", "LogicalNot", ["S"]),
@@ -490,8 +518,8 @@ def _constructors(ctx, model, E):
             continue
         mem = E.members.get(name)
         ok = mem is not None and all(
-            _result(ps.retval) == want for ps in summarize(mem.node,
-                                                           node_param=False))
+            _result(ps.retval) == want or _spliced_nary(ps.retval, want)
+            for ps in summarize(mem.node, node_param=False))
         ctx.ob(f"E/Expression.{name}", ok, E.loc(),
                f"{name} builds {want[1]}({', '.join(want[2])})" if ok else
                f"Expression.{name} does not build {want[1]} with operands in "
